@@ -935,6 +935,345 @@ Qed.
 End TreeP.
 
 (* ---------------------------------------------------------------------------------------- *)
+(* 8b. removal marks, and fileStore.iterate's use of the tree: Remove every key of the file,   *)
+(*     then Walk what is left                                                                *)
+(* ---------------------------------------------------------------------------------------- *)
+Section Marks.
+Variable D : Type.
+Notation node := (node D).
+Notation edges := (edges D).
+Notation entry := (entry D).
+
+(* the data nodes with their removal flag for one context *)
+Fixpoint dx_n (ctx:Z) (path:list Z) (n:node) {struct n} : list (entry * bool) :=
+  match n with Node k d r es =>
+    (match d with Some x => [((path, k, x), was_removed ctx (Node k d r ENil))] | None => [] end) ++ dx_es ctx path es end
+with dx_es (ctx:Z) (path:list Z) (es:edges) {struct es} : list (entry * bool) :=
+  match es with ENil => [] | ECons l t r => dx_n ctx (path ++ l) t ++ dx_es ctx path r end.
+
+Lemma was_removed_eq ctx (k:list Z) (d:option D) r (es es':edges) : was_removed ctx (Node k d r es) = was_removed ctx (Node k d r es').
+Proof. reflexivity. Qed.
+
+Lemma dx_dd ctx :
+  (forall n:node, forall path, map fst (dx_n ctx path n) = dd_n path n)
+  /\ (forall es:edges, forall path, map fst (dx_es ctx path es) = dd_es path es).
+Proof.
+  apply node_edges_ind.
+  - intros k d r es IH path. cbn [dx_n dd_n]. rewrite map_app, IH. f_equal. unfold own. simpl. destruct d; reflexivity.
+  - reflexivity.
+  - intros l t IHt r IHr path. cbn [dx_es dd_es]. rewrite map_app, IHt, IHr. reflexivity.
+Qed.
+
+Lemma dx_n_eq ctx path (n:node) :
+  dx_n ctx path n = (match n_data n with Some x => [((path, n_key n, x), was_removed ctx n)] | None => [] end) ++ dx_es ctx path (n_edges n).
+Proof. destruct n as [k d r es]. reflexivity. Qed.
+
+Lemma in_dx_dd ctx path (es:edges) e b : In (e, b) (dx_es ctx path es) -> In e (dd_es path es).
+Proof. intros H. rewrite <- (proj2 (dx_dd ctx)). apply in_map_iff. exists (e, b). auto. Qed.
+Lemma in_dxn_dd ctx path (n:node) e b : In (e, b) (dx_n ctx path n) -> In e (dd_n path n).
+Proof. intros H. rewrite <- (proj1 (dx_dd ctx)). apply in_map_iff. exists (e, b). auto. Qed.
+
+Definition marked_at (p:list Z) (before after:list (entry * bool)) : Prop :=
+  forall e b, In (e, b) after <->
+    ((e_path e <> p /\ In (e, b) before) \/ (e_path e = p /\ b = true /\ exists b0, In (e, b0) before)).
+Definition same_marks (before after:list (entry * bool)) : Prop := forall e b, In (e, b) after <-> In (e, b) before.
+
+Lemma marked_none p (l:list (entry * bool)) : (forall e b, In (e, b) l -> e_path e <> p) -> marked_at p l l.
+Proof.
+  intros H e b. split.
+  - intros Hin. left. split; [exact (H e b Hin)|exact Hin].
+  - intros [[_ Hin]|[E [_ [b0 Hin]]]]; [exact Hin|]. destruct (H e b0 Hin E).
+Qed.
+
+Lemma marked_app p (a a' c c':list (entry * bool)) : marked_at p a a' -> marked_at p c c' -> marked_at p (a ++ c) (a' ++ c').
+Proof.
+  intros Ha Hc e b. rewrite in_app_iff, (Ha e b), (Hc e b). split.
+  - intros [[[N Hin]|[E [Eb [b0 Hin]]]]|[[N Hin]|[E [Eb [b0 Hin]]]]].
+    + left; split; [exact N|apply in_or_app; left; exact Hin].
+    + right; split; [exact E|split; [exact Eb|exists b0; apply in_or_app; left; exact Hin]].
+    + left; split; [exact N|apply in_or_app; right; exact Hin].
+    + right; split; [exact E|split; [exact Eb|exists b0; apply in_or_app; right; exact Hin]].
+  - intros [[N Hin]|[E [Eb [b0 Hin]]]].
+    + apply in_app_or in Hin as [Hin|Hin]; [left; left; auto|right; left; auto].
+    + apply in_app_or in Hin as [Hin|Hin]; [left; right; split; [exact E|split; [exact Eb|exists b0; exact Hin]]|right; right; split; [exact E|split; [exact Eb|exists b0; exact Hin]]].
+Qed.
+
+Lemma do_remove_flag ctx (t:node) : ctx <> 0 -> was_removed ctx (do_remove ctx t) = true.
+Proof.
+  intros Hc. unfold do_remove, was_removed. destruct (Z.eqb_spec ctx 0); [contradiction|]. destruct t as [k d r es]. simpl.
+  rewrite existsb_app. simpl. rewrite Z.eqb_refl. rewrite orb_true_r. reflexivity.
+Qed.
+
+(* Remove marks exactly the data node at the key's path (if there is one) *)
+Lemma rem_marks ctx : ctx <> 0 ->
+  (forall n:node, forall path key, key <> [] -> wf_n path n ->
+     marked_at (path ++ key) (dx_es ctx path (n_edges n)) (dx_es ctx path (n_edges (fst (rem_n ctx key n))))
+     /\ n_key (fst (rem_n ctx key n)) = n_key n /\ n_data (fst (rem_n ctx key n)) = n_data n
+     /\ was_removed ctx (fst (rem_n ctx key n)) = was_removed ctx n)
+  /\ (forall es:edges, forall top path key, wf_es top path es ->
+     marked_at (path ++ key) (dx_es ctx path es) (dx_es ctx path (fst (rem_es ctx key es)))).
+Proof.
+  intros Hc. apply node_edges_ind.
+  - intros k d r es IH path key Hk [_ Hes]. rewrite rem_n_unfold. specialize (IH false path key Hes).
+    destruct (rem_es ctx key es) as [es' o]. cbn [fst n_edges n_key n_data] in *. auto.
+  - intros top path key _. simpl. apply marked_none. intros e b [].
+  - intros l t IHt r IHr top path key [H1 [H2 [H3 H4]]]. rewrite rem_es_unfold.
+    destruct (view_of l key) as [E | r' Hr E | p l2 k2 Hp Hl El Ek H0 | Hl H0].
+    + (* exact: the node of this edge *)
+      subst key. rewrite tests_exact.
+      assert (forall e b, In (e, b) (dx_es ctx path r) -> e_path e <> path ++ l) as Nr.
+      { intros e b Hin E. apply in_dx_dd in Hin. destruct e as [[p0 k0] d0]. unfold e_path in E; simpl in E. subst p0.
+        apply (@in_rest_head D r top path l l k0 d0 H4 H1 H2 Hin); [exists []; rewrite app_nil_r; reflexivity|].
+        destruct l; [right; reflexivity|left; discriminate]. }
+      assert (forall e b, In (e, b) (dx_es ctx (path ++ l) (n_edges t)) -> e_path e <> path ++ l) as Nt.
+      { intros e b Hin E. apply in_dx_dd in Hin. apply wf_n_eq in H3 as [_ Wt].
+        destruct (proj2 (@dd_heads D) _ false (path ++ l) _ Wt Hin) as [[Ht _]|[x [rest [E2 _]]]]; [discriminate|].
+        rewrite E2 in E. exact (@app_cons_not_self _ _ _ E). }
+      destruct (was_removed ctx t) eqn:Er; cbn [fst dx_es].
+      * (* already removed: nothing changes, and the statement holds because its flag is true already *)
+        apply marked_app; [|apply marked_none; exact Nr].
+        rewrite dx_n_eq. intros e b. split.
+        -- intros Hin. apply in_app_or in Hin as [Hin|Hin].
+           ++ destruct (n_data t) as [x|]; [|destruct Hin]. destruct Hin as [E|[]]. inversion E; subst. right.
+              split; [reflexivity|]. split; [exact Er|]. exists true. apply in_or_app. left. left. rewrite Er. reflexivity.
+           ++ left. split; [exact (Nt e b Hin)|apply in_or_app; right; exact Hin].
+        -- intros [[N Hin]|[E [Eb [b0 Hin]]]]; [exact Hin|].
+           apply in_app_or in Hin as [Hin|Hin]; [|destruct (Nt e b0 Hin E)].
+           destruct (n_data t) as [x|]; [|destruct Hin]. destruct Hin as [E2|[]]. inversion E2; subst.
+           apply in_or_app. left. left. rewrite Er. reflexivity.
+      * destruct (do_remove_same ctx t) as [S1 [S2 S3]].
+        apply marked_app; [|apply marked_none; exact Nr].
+        rewrite !dx_n_eq, S1, S2, S3, (do_remove_flag t Hc), Er. intros e b. split.
+        -- intros Hin. apply in_app_or in Hin as [Hin|Hin].
+           ++ destruct (n_data t) as [x|]; [|destruct Hin]. destruct Hin as [E|[]]. inversion E; subst. right.
+              split; [reflexivity|]. split; [reflexivity|]. exists false. apply in_or_app. left. left. reflexivity.
+           ++ left. split; [exact (Nt e b Hin)|apply in_or_app; right; exact Hin].
+        -- intros [[N Hin]|[E [Eb [b0 Hin]]]].
+           ++ apply in_app_or in Hin as [Hin|Hin]; [|apply in_or_app; right; exact Hin].
+              destruct (n_data t) as [x|]; [|destruct Hin]. destruct Hin as [E2|[]]. inversion E2; subst. destruct N. reflexivity.
+           ++ apply in_app_or in Hin as [Hin|Hin]; [|destruct (Nt e b0 Hin E)].
+              destruct (n_data t) as [x|]; [|destruct Hin]. destruct Hin as [E2|[]]. inversion E2; subst.
+              apply in_or_app. left. left. reflexivity.
+    + (* descend *)
+      subst key. destruct (tests_desc l Hr) as [T1 T2]. rewrite T1, T2, skipn_app_exact.
+      destruct (IHt (path ++ l) r' Hr H3) as [M [S1 [S2 S3]]]. destruct (rem_n ctx r' t) as [t' o]. cbn [fst] in *.
+      cbn [dx_es]. rewrite <- app_assoc in M. apply marked_app.
+      * rewrite !dx_n_eq, S1, S2, S3. apply marked_app; [|exact M].
+        apply marked_none. intros e b Hin E. destruct (n_data t) as [x|]; [|destruct Hin]. destruct Hin as [E2|[]]. inversion E2; subst.
+        unfold e_path in E; simpl in E. destruct r' as [|y r']; [congruence|]. rewrite app_assoc in E. exact (@app_cons_not_self _ _ _ (eq_sym E)).
+      * apply marked_none. intros e b Hin E. apply in_dx_dd in Hin. destruct e as [[p0 k0] d0]. unfold e_path in E; simpl in E. subst p0.
+        destruct l as [|y l]; [destruct (H1 eq_refl) as [_ Er]; subst r; destruct Hin|].
+        apply (@in_rest_head D r top path (y :: l) ((y :: l) ++ r') k0 d0 H4 H1 H2 Hin); [exists r'; reflexivity|left; discriminate].
+    + (* the key leaves the label half way: Remove passes this edge and finds nothing in the others *)
+      subst l key. destruct (tests_split k2 Hp Hl H0) as [T1 [T2 [T3 T4]]]. rewrite T1, T2.
+      assert (p ++ l2 <> []) as Hpl by (destruct p; simpl; congruence).
+      rewrite (proj2 (@rem_miss D ctx) r top path (p ++ k2) H4); cbn [fst].
+      * apply marked_none. intros e b Hin E. apply in_dx_dd in Hin. destruct e as [[p0 k0] d0]. unfold e_path in E; simpl in E. subst p0.
+        assert (dfind_es (p ++ k2) (ECons (p ++ l2) t r) = Some d0) as F.
+        { apply (proj2 (@nav D) (ECons (p ++ l2) t r) top path (p ++ k2) d0); [cbn [wf_es]; auto|]. exists k0. exact Hin. }
+        unfold dfind_es in F. rewrite find_es_unfold, T1, T2, T3 in F. discriminate.
+      * destruct p; simpl; congruence.
+      * replace (hd 0 (p ++ k2)) with (hd 0 (p ++ l2)) by (destruct p; [congruence|reflexivity]). exact (H2 Hpl).
+    + (* miss *)
+      destruct (tests_miss key Hl H0) as [T1 [T2 T3]]. rewrite T1, T2.
+      specialize (IHr top path key H4). destruct (rem_es ctx key r) as [r1 o]. cbn [fst] in *. cbn [dx_es].
+      apply marked_app; [|exact IHr].
+      apply marked_none. intros e b Hin E. apply in_dxn_dd in Hin.
+      destruct (@dd_n_prefix D _ _ _ H3 Hin) as [s Es]. rewrite E in Es. rewrite <- app_assoc in Es. apply app_inv_head in Es. subst key.
+      destruct l as [|y l]; [congruence|]. simpl in H0. rewrite Z.eqb_refl in H0. discriminate.
+Qed.
+
+(* the node the navigation finds, with its flag, is among the data nodes — for every tree *)
+Lemma nav_flag ctx :
+  (forall n:node, forall path key m d, find_es key (n_edges n) = Some m -> n_data m = Some d ->
+     In ((path ++ key, n_key m, d), was_removed ctx m) (dx_es ctx path (n_edges n)))
+  /\ (forall es:edges, forall path key m d, find_es key es = Some m -> n_data m = Some d ->
+     In ((path ++ key, n_key m, d), was_removed ctx m) (dx_es ctx path es)).
+Proof.
+  apply node_edges_ind.
+  - intros k d r es IH path key m d0 F Hd. cbn [n_edges] in *. exact (IH path key m d0 F Hd).
+  - intros path key m d F. discriminate.
+  - intros l t IHt r IHr path key m d F Hd. rewrite find_es_unfold in F. cbn [dx_es].
+    destruct (view_of l key) as [E | r' Hr E | p l2 k2 Hp Hl El Ek H0 | Hl H0].
+    + subst key. rewrite tests_exact in F. inversion F; subst m. apply in_or_app. left. rewrite dx_n_eq, Hd. left. reflexivity.
+    + subst key. destruct (tests_desc l Hr) as [T1 T2]. rewrite T1, T2, skipn_app_exact in F.
+      apply in_or_app. left. rewrite dx_n_eq. apply in_or_app. right. rewrite app_assoc. exact (IHt (path ++ l) r' m d F Hd).
+    + subst l key. destruct (tests_split k2 Hp Hl H0) as [T1 [T2 [T3 T4]]]. rewrite T1, T2, T3 in F. discriminate.
+    + destruct (tests_miss key Hl H0) as [T1 [T2 T3]]. rewrite T1, T2, T3 in F.
+      apply in_or_app. right. exact (IHr path key m d F Hd).
+Qed.
+
+Lemma dx_flags_all ctx :
+  (forall n:node, forall path e b, In (e, b) (dx_n ctx path n) -> exists m, In m (all_n n) /\ b = was_removed ctx m)
+  /\ (forall es:edges, forall path e b, In (e, b) (dx_es ctx path es) -> exists m, In m (all_es es) /\ b = was_removed ctx m).
+Proof.
+  apply node_edges_ind.
+  - intros k d r es IH path e b Hin. cbn [dx_n] in Hin. apply in_app_or in Hin as [Hin|Hin].
+    + destruct d as [x|]; [|destruct Hin]. destruct Hin as [E|[]]. inversion E; subst. exists (Node k (Some x) r es). split; [left; reflexivity|reflexivity].
+    + destruct (IH path e b Hin) as [m [Hm Eb]]. exists m. split; [right; exact Hm|exact Eb].
+  - intros path e b [].
+  - intros l t IHt r IHr path e b Hin. cbn [dx_es] in Hin. cbn [all_es]. apply in_app_or in Hin as [Hin|Hin].
+    + destruct (IHt _ e b Hin) as [m [Hm Eb]]. exists m. split; [apply in_or_app; left; exact Hm|exact Eb].
+    + destruct (IHr _ e b Hin) as [m [Hm Eb]]. exists m. split; [apply in_or_app; right; exact Hm|exact Eb].
+Qed.
+
+Definition kd_live ctx (n:node) : list (list Z * D) :=
+  match n_data n with Some d => if was_removed ctx n then [] else [(n_key n, d)] | None => [] end.
+Definition live (l:list (entry * bool)) : list entry := map fst (filter (fun x => negb (snd x)) l).
+
+Lemma walk_list_live ctx (ns:list node) : fst (walk_list ctx (@take_all D) ns) = flat_map (kd_live ctx) ns.
+Proof.
+  induction ns as [|n ns IH]; [reflexivity|]. simpl. unfold kd_live at 1. destruct (n_data n) as [d|]; [|exact IH].
+  destruct (was_removed ctx n); [exact IH|]. unfold take_all at 1. fold (@take_all D).
+  destruct (walk_list ctx (@take_all D) ns) as [vs ms]. simpl in *. f_equal. exact IH.
+Qed.
+
+Lemma live_app (a b:list (entry * bool)) : live (a ++ b) = live a ++ live b.
+Proof. unfold live. rewrite filter_app, map_app. reflexivity. Qed.
+
+Lemma kd_live_dx ctx :
+  (forall n:node, forall path, map (@kd_of D) (live (dx_n ctx path n)) = flat_map (kd_live ctx) (all_n n))
+  /\ (forall es:edges, forall path, map (@kd_of D) (live (dx_es ctx path es)) = flat_map (kd_live ctx) (all_es es)).
+Proof.
+  apply node_edges_ind.
+  - intros k d r es IH path. cbn [dx_n all_n flat_map]. rewrite live_app, map_app, IH. f_equal.
+    unfold kd_live. cbn [n_data n_key]. destruct d as [x|]; [|reflexivity].
+    rewrite (was_removed_eq ctx k (Some x) r ENil es). unfold live. simpl. destruct (was_removed ctx (Node k (Some x) r es)); reflexivity.
+  - reflexivity.
+  - intros l t IHt r IHr path. cbn [dx_es all_es]. rewrite live_app, map_app, flat_map_app, IHt, IHr. reflexivity.
+Qed.
+
+Lemma in_live (l:list (entry * bool)) e : In e (live l) <-> In (e, false) l.
+Proof.
+  unfold live. rewrite in_map_iff. split.
+  - intros [[e0 b] [E Hin]]. simpl in E. subst e0. apply filter_In in Hin as [Hin Hb]. destruct b; [discriminate|exact Hin].
+  - intros Hin. exists (e, false). split; [reflexivity|]. apply filter_In. split; [exact Hin|reflexivity].
+Qed.
+
+Lemma nodup_map_filter {A B} (f:A -> B) (p:A -> bool) (l:list A) : NoDup (map f l) -> NoDup (map f (filter p l)).
+Proof.
+  induction l as [|x l IH]; simpl; intros H; [constructor|]. inversion H; subst. destruct (p x); simpl; [constructor|]; auto.
+  intro Hin. apply H2. apply in_map_iff in Hin as [y [E Hy]]. apply filter_In in Hy as [Hy _]. apply in_map_iff. exists y. auto.
+Qed.
+
+Notation tree := (tree D).
+Definition DX ctx (t:tree) : list (entry * bool) := dx_es ctx [] (n_edges (t_root t)).
+
+Lemma DX_content ctx (t:tree) : map fst (DX ctx t) = content t.
+Proof. apply (proj2 (dx_dd ctx)). Qed.
+
+(* the flags are a function of the path *)
+Lemma DX_functional ctx (t:tree) e b e' b' : wf_tree t -> In (e, b) (DX ctx t) -> In (e', b') (DX ctx t) -> e_path e = e_path e' -> e = e' /\ b = b'.
+Proof.
+  intros WT. pose proof (content_nodup WT) as ND. rewrite <- (DX_content ctx), map_map in ND.
+  generalize dependent (DX ctx t). intros l ND H1 H2 E.
+  induction l as [|x l IH]; [destruct H1|]. simpl in ND. inversion ND; subst.
+  destruct H1 as [H1|H1], H2 as [H2|H2].
+  - subst x. inversion H2; auto.
+  - subst x. exfalso. apply H3. apply in_map_iff. exists (e', b'). simpl. auto.
+  - subst x. exfalso. apply H3. apply in_map_iff. exists (e, b). simpl. auto.
+  - apply IH; auto.
+Qed.
+
+Definition flags_are ctx (t:tree) (done:list (list Z)) : Prop :=
+  forall e b, In (e, b) (DX ctx t) -> (b = true <-> In (e_path e) done).
+
+Lemma flags_unmarked ctx (t:tree) : wf_tree t -> unmarked ctx t -> flags_are ctx t [].
+Proof.
+  intros [_ [_ HR]] U e b Hin. destruct (proj2 (dx_flags_all ctx) _ _ e b Hin) as [m [Hm Eb]].
+  rewrite (U m) in Eb; [subst b; split; [discriminate|intros []]|].
+  rewrite all_n_eq. right. exact Hm.
+Qed.
+
+(* one Remove of fileStore.iterate: the key's data comes back (it has not been removed in this context), nothing
+   but the key's mark changes *)
+Lemma remove_step ctx key (t:tree) done : ctx <> 0 -> wf_tree t -> flags_are ctx t done -> ~ In key done ->
+  let '(t', o) := tremove ctx key t in
+  wf_tree t' /\ content t' = content t /\ o = tfind key t /\ flags_are ctx t' (key :: done).
+Proof.
+  intros Hc WT FA Hnd. pose proof (tremove_spec ctx key WT) as S. pose proof WT as [W [HL HR]].
+  unfold tremove in *. destruct (t_root t) as [k0 d0 r0 es] eqn:ER. rewrite rem_n_unfold in *.
+  pose proof (proj2 (@rem_spec D ctx) es true [] key W) as RS.
+  pose proof (proj2 (rem_marks Hc) es true [] key W) as RM.
+  destruct (rem_es ctx key es) as [es' o]. destruct S as [WT' [EC _]]. destruct RS as [_ [_ [_ Eo]]]. cbn [fst] in RM.
+  split; [exact WT'|]. split; [exact EC|]. split.
+  - (* what came back *)
+    rewrite Eo. rewrite tfind_eq, ER. cbn [n_edges]. unfold dfind_es, found_data.
+    destruct (find_es key es) as [m|] eqn:F; [|reflexivity]. destruct (n_data m) as [d|] eqn:Hd; [|destruct (was_removed ctx m); reflexivity].
+    pose proof (proj2 (nav_flag ctx) es [] key m d F Hd) as Hin.
+    assert (In ((key, n_key m, d), was_removed ctx m) (DX ctx t)) as Hin' by (unfold DX; rewrite ER; exact Hin).
+    destruct (was_removed ctx m) eqn:Er; [|reflexivity]. exfalso. apply Hnd. apply (FA _ _ Hin'). reflexivity.
+  - (* the marks *)
+    intros e b Hin. unfold DX in Hin. cbn [t_root n_edges] in Hin. apply (RM e b) in Hin. simpl app in Hin.
+    assert (DX ctx t = dx_es ctx [] es) as EDX by (unfold DX; rewrite ER; reflexivity).
+    destruct Hin as [[N Hin]|[E [Eb [b0 Hin]]]].
+    + rewrite <- EDX in Hin. rewrite (FA e b Hin). split; [intros H; right; exact H|intros [H|H]; [congruence|exact H]].
+    + split; [intros _; left; congruence|intros _; exact Eb].
+Qed.
+
+Lemma remove_all_spec ctx : ctx <> 0 -> forall fks (t:tree) done, wf_tree t -> flags_are ctx t done -> NoDup fks -> (forall k, In k fks -> ~ In k done) ->
+  let '(t', os) := remove_all ctx fks t in
+  wf_tree t' /\ content t' = content t /\ os = map (fun k => (k, tfind k t)) fks /\ flags_are ctx t' (rev fks ++ done).
+Proof.
+  intros Hc. induction fks as [|k fks IH]; intros t done WT FA ND Hd; cbn [remove_all].
+  - simpl. auto.
+  - inversion ND; subst. pose proof (@remove_step ctx k t done Hc WT FA (Hd k (or_introl eq_refl))) as S.
+    destruct (tremove ctx k t) as [t1 o]. destruct S as [WT1 [EC1 [Eo FA1]]].
+    specialize (IH t1 (k :: done) WT1 FA1 H2).
+    destruct (remove_all ctx fks t1) as [t2 os].
+    destruct IH as [WT2 [EC2 [Eos FA2]]].
+    { intros k' Hk' [E|Hin]; [subst k'; contradiction|exact (Hd k' (or_intror Hk') Hin)]. }
+    split; [exact WT2|]. split; [congruence|]. split.
+    + simpl. rewrite Eo. f_equal. rewrite Eos. apply map_ext_in. intros k' _. f_equal.
+      apply option_ext. intros d. rewrite (tfind_in k' d WT1), (tfind_in k' d WT), EC1. reflexivity.
+    + simpl. rewrite <- app_assoc. exact FA2.
+Qed.
+
+(* fileStore.iterate merges a file with the memstore tree: every key of the file gets exactly the memstore's data for
+   it, and the Walk that follows reports exactly the memstore's other keys, each once — every key of file and
+   memstore is delivered exactly once *)
+Theorem iterate_each_key_once ctx fks (t:tree) : ctx <> 0 -> wf_tree t -> unmarked ctx t -> NoDup fks ->
+  let '(os, vs) := iterate_keys ctx fks t in
+  os = map (fun k => (k, tfind k t)) fks
+  /\ NoDup (map fst vs)
+  /\ (forall k d, In (k, d) vs <-> (tfind k t = Some d /\ ~ In k fks)).
+Proof.
+  intros Hc WT U ND. unfold iterate_keys.
+  pose proof (@remove_all_spec ctx Hc fks t [] WT (flags_unmarked WT U) ND (fun _ _ H => H)) as S.
+  destruct (remove_all ctx fks t) as [t1 os]. destruct S as [WT1 [EC [Eos FA]]]. rewrite app_nil_r in FA.
+  split; [exact Eos|].
+  unfold twalk. pose proof (walk_list_live ctx (bfs_nodes (t_root t1))) as WL.
+  destruct (walk_list ctx (@take_all D) (bfs_nodes (t_root t1))) as [vs ms]. cbn [fst snd] in *. subst vs.
+  assert (Permutation (flat_map (kd_live ctx) (bfs_nodes (t_root t1))) (map (@kd_of D) (live (DX ctx t1)))) as P.
+  { eapply Permutation_trans; [apply Permutation_flat_map; apply bfs_nodes_perm|].
+    destruct WT1 as [_ [_ HR]]. rewrite all_n_eq. simpl. unfold kd_live at 1. rewrite HR. simpl.
+    unfold DX. rewrite (proj2 (kd_live_dx ctx)). reflexivity. }
+  assert (forall k d, In (k, d) (map (@kd_of D) (live (DX ctx t1))) <-> (tfind k t = Some d /\ ~ In k fks)) as M.
+  { intros k d. split.
+    - intros Hin. apply in_map_iff in Hin as [[[p k0] d0] [E Hin]]. unfold kd_of in E; simpl in E. injection E as E1 E2. subst k0 d0.
+      apply in_live in Hin. assert (In (p, k, d) (content t1)) as Hc1 by (rewrite <- (DX_content ctx); apply in_map_iff; exists ((p, k, d), false); auto).
+      pose proof (content_keys _ _ _ WT1 Hc1) as Ek. subst p. split.
+      + apply (tfind_in k d WT). exists k. rewrite <- EC. exact Hc1.
+      + intro Hk. apply in_rev in Hk. apply (FA _ _ Hin) in Hk. discriminate.
+    - intros [F Hk]. apply (tfind_in k d WT) in F as [k0 Hin]. pose proof (content_keys _ _ _ WT Hin) as Ek. subst k0.
+      rewrite <- EC, <- (DX_content ctx) in Hin. apply in_map_iff in Hin as [[e b] [E Hin]]. simpl in E. subst e.
+      apply in_map_iff. exists (k, k, d). split; [reflexivity|]. apply in_live. destruct b; [|exact Hin].
+      exfalso. apply Hk. apply in_rev. apply (FA _ _ Hin). reflexivity. }
+  split.
+  - apply (Permutation_NoDup (l:=map fst (map (@kd_of D) (live (DX ctx t1))))); [apply Permutation_map; apply Permutation_sym; exact P|].
+    pose proof (content_nodup WT1) as NDc. rewrite <- (DX_content ctx), map_map in NDc.
+    unfold live. rewrite !map_map.
+    assert (map (fun x : entry * bool => fst (kd_of (fst x))) (filter (fun x => negb (snd x)) (DX ctx t1))
+            = map (fun x : entry * bool => e_path (fst x)) (filter (fun x => negb (snd x)) (DX ctx t1))) as Em.
+    { apply map_ext_in. intros [[[p k] d] b] Hin. apply filter_In in Hin as [Hin _].
+      assert (In (p, k, d) (content t1)) as Hc1 by (rewrite <- (DX_content ctx); apply in_map_iff; exists ((p, k, d), b); auto).
+      pose proof (content_keys _ _ _ WT1 Hc1) as Ek. subst k. reflexivity. }
+    rewrite Em. apply nodup_map_filter. exact NDc.
+  - intros k d. rewrite <- M. split; intros Hin; [eapply Permutation_in; [exact P|exact Hin]|eapply Permutation_in; [apply Permutation_sym; exact P|exact Hin]].
+Qed.
+End Marks.
+
+(* ---------------------------------------------------------------------------------------- *)
 (* 9. the shipped Update (before the repair e89d368 in /repo) is refuted                      *)
 (* ---------------------------------------------------------------------------------------- *)
 Definition shipped_built (ups:list (list Z * Z)) : tree Z :=
